@@ -562,6 +562,9 @@ def run_e4(prop, hs, tier, engine="e4"):
             verdict, reason = "inconclusive", "%d of %d programs inconclusive (%s)" % (len(inc), len(res), inc[0]["reason"])
         else:
             verdict, reason = "pass", "%d programs, %d claims: %d verification conditions unsat (z3)" % (len(res), nclaims, nq)
+            naux = sum(r.get("aux_tags_not_inductive", 0) for r in res)
+            if naux:
+                reason += "; %d auxiliary CSR tags/facts of the tool are not inductive (not C01-kind claims: dropped, nothing may rest on them)" % naux
         sr = _side_result(h, verdict, reason, dt, None, nq, ["AvailableValuePass::run (native, via Manager::gen_full_cfg)"] if engine == "e4" else
                           ["LivenessPass::run (native, via Manager::gen_full_cfg)"])
         sr["programs"] = len(res)
